@@ -22,6 +22,22 @@ def install(m):
     C['crypto/subtle.XORBytes'] = _xorbytes
     C['bytes.Clone'] = _bytes_clone
     C['bytes.Repeat'] = _bytes_repeat
+    C['bytes.Compare'] = _bytes_compare
+    for w in (8, 16, 32, 64):
+        sfx = str(w)
+        C['math/bits.LeadingZeros' + sfx] = (lambda w: lambda m, a: _clz(a[0], w))(w)
+        C['math/bits.Len' + sfx] = (lambda w: lambda m, a: tm.bv('sub', w, _clz(a[0], w), 64))(w)
+        C['math/bits.TrailingZeros' + sfx] = (lambda w: lambda m, a: _ctz(a[0], w))(w)
+        C['math/bits.OnesCount' + sfx] = (lambda w: lambda m, a: _popcnt(a[0], w))(w)
+    C['math/bits.LeadingZeros'] = lambda m, a: _clz(a[0], 64)
+    C['math/bits.Len'] = lambda m, a: tm.bv('sub', 64, _clz(a[0], 64), 64)
+    C['math/bits.TrailingZeros'] = lambda m, a: _ctz(a[0], 64)
+    C['math/bits.OnesCount'] = lambda m, a: _popcnt(a[0], 64)
+    C['math/bits.ReverseBytes64'] = lambda m, a: _revbytes(a[0], 64)
+    C['math/bits.ReverseBytes32'] = lambda m, a: _revbytes(a[0], 32)
+    C['math/bits.RotateLeft64'] = lambda m, a: _rotl(m, a[0], a[1], 64)
+    C['math/bits.RotateLeft32'] = lambda m, a: _rotl(m, a[0], a[1], 32)
+    C['bytes.HasPrefix'] = lambda m, a: _has_prefix(m, a[0], a[1])
 
 
 # -------------------------------------------------------------- windows / views
@@ -250,3 +266,73 @@ def _bytes_repeat(m, a):
     if isinstance(n, T):
         raise X.Unsupported("bytes.Repeat symbolic count")
     return _new_byte_slice(m, el * n, 'bytes.Repeat')
+
+
+def _clz(x, w):
+    """count leading zeros of a w-bit value -> 64-bit int term"""
+    if not isinstance(x, T):
+        return w - x.bit_length()
+    r = w  # value when x == 0
+    for i in range(w):  # bit i set and all higher clear -> w-1-i ; build from low bit upwards
+        r = tm.ite(tm.eq(tm.extract(x, i, i), 1, 1), w - 1 - i, r, 64)
+    return r
+
+
+def _ctz(x, w):
+    if not isinstance(x, T):
+        return w if x == 0 else (x & -x).bit_length() - 1
+    r = w
+    for i in range(w - 1, -1, -1):
+        r = tm.ite(tm.eq(tm.extract(x, i, i), 1, 1), i, r, 64)
+    return r
+
+
+def _popcnt(x, w):
+    if not isinstance(x, T):
+        return bin(x).count('1')
+    r = 0
+    for i in range(w):
+        r = tm.bv('add', r, tm.zext(tm.extract(x, i, i), 64), 64)
+    return r
+
+
+def _revbytes(x, w):
+    if not isinstance(x, T):
+        return int.from_bytes(x.to_bytes(w // 8, 'big'), 'little')
+    r = tm.extract(x, 7, 0)
+    for i in range(1, w // 8):
+        r = tm.concat(r, tm.extract(x, 8 * i + 7, 8 * i), 8)
+    return r
+
+
+def _rotl(m, x, k, w):
+    if isinstance(k, T):
+        k = m.ctx.concretize(k, 64, 'rotate count')
+    if k >= 1 << 63:
+        k -= 1 << 64
+    k %= w
+    if k == 0:
+        return x
+    return tm.bv('or', tm.bv('shl', x, k, w), tm.bv('lshr', x, w - k, w), w)
+
+
+def _bytes_compare(m, a):
+    x, y = concretize_slice(m, a[0]), concretize_slice(m, a[1])
+    xe, ye = _slice_elems(m, x) if x is not None else [], _slice_elems(m, y) if y is not None else []
+    n = min(len(xe), len(ye))
+    NEG = (1 << 64) - 1
+    r = 0 if len(xe) == len(ye) else (NEG if len(xe) < len(ye) else 1)
+    for i in range(n - 1, -1, -1):
+        r = tm.ite(tm.eq(xe[i], ye[i], 8), r, tm.ite(tm.ult(xe[i], ye[i], 8), NEG, 1, 64), 64)
+    return r
+
+
+def _has_prefix(m, s, p):
+    s, p = concretize_slice(m, s), concretize_slice(m, p)
+    se, pe = _slice_elems(m, s), _slice_elems(m, p)
+    if len(pe) > len(se):
+        return False
+    r = True
+    for u, v in zip(se, pe):
+        r = tm.band(r, tm.eq(u, v, 8))
+    return r
